@@ -280,7 +280,7 @@ def run(ctx):
         return 0
     common.proof_stage(ctx, "CobraModel.Props.C09", extra_scan=["CobraModel/Lemmas/Formulations.lean", "CobraModel/Lemmas/LP.lean", "CobraModel/Model/LP.lean"])
     rng = ctx.rng
-    n = ctx.scale(80, 2500)
+    n = ctx.scale(300, 5000)
     ran, tries = 0, 0
     skipped, methods = {}, {}
     distinct = set()
